@@ -122,6 +122,23 @@ CLAIMED = {
              '(principal-root stub) is executed and the result is compared with the direction of travel with its sign.',
         note='Two single-coincidence cubic cases are run with the singular point anchored at the origin in quick (free in thorough). Arc tangent/curvature are consequences of the arc derivative identities (C04). Interior cusps and numpy-scalar inputs outside.',
         design='3/C15'),
+    'C11': dict(
+        text='Line x Line closed form on symbolic end points: every returned pair is in [0,1]^2, the two points coincide, operand swap returns '
+             'the exchanged pair.  Line x Quadratic/Cubic: the polynomial handed to np.roots is captured and shown to be the signed distance '
+             'to the carrier line; with np.roots stubbed by symbolic roots of it every returned (bez_t,line_t) is in range and a common '
+             'point, both call directions (quadratic <=1 root, cubic 0 roots quick; more in thorough).  The control-polygon pre-filters never '
+             'reject curves sharing a point.  Subdivision acceptance (box_area < tol) examined as a function.  Path.intersect on stub '
+             'segments: triples coherent (T = t2T(seg,t)), de-duplication only drops near-duplicates.',
+        note='One recorded known finding (acceptance by box area). Arc pairs, subdivision termination and numeric margins outside. Line start anchored at the origin in the quick Line x Bezier families.',
+        design='3/C11'),
+    'C12': dict(
+        text='Line x Line: symbolic segments crossing at interior parameters (u1,u2), angle >= 6 degrees => exactly [(u1,u2)] returned.  '
+             'Quadratic/Cubic x Line: root list containing the true parameter (complete-roots contract) otherwise arbitrary => the pair is '
+             'returned exactly once, both call directions.  Control-polygon pre-filters of all 8 Bezier type pairs never reject curves '
+             'sharing a point.  boxes_intersect on symbolic boxes (common point => True).  ApproxSolutionSet and Path.intersect '
+             'de-duplication drop only entries within tol.  Pruning boxes contain the curve (degenerate cubic / quadratic routes).',
+        note='One recorded known finding (boxes_intersect on zero-width overlaps). Arc pairs, subdivision convergence and the redundant-pair removal loop outside. np.roots completeness is a contract.',
+        design='3/C12'),
 }
 
 NOT_YET = 'check not built yet in this round (see DESIGN.md section 3 for the plan)'
